@@ -18,13 +18,27 @@ ASSUMPTIONS = ["constructor-made URLs are outside the domain (the statement quan
 MAY_ESCAPE = {"user": "#/:?@[]%", "password": "#/:?@[]%", "path": "#?%", "query": "#&+;=%", "fragment": "%"}
 
 
-def check_human(ctx, backend, kw):
+def check_human(ctx, backend, kw, pre=0, then=None):
     Y = ctx.yarl(backend)
     kw = dict(kw)
     if isinstance(kw.get("query"), list):
         kw["query"] = [tuple(p) for p in kw["query"]]
     try:
         u = Y.URL.build(**kw)
+        d = ref.DEFAULT_PORTS
+        if then == "with_port-default" and u.scheme in d:
+            u = u.with_port(d[u.scheme])
+        elif then == "with_scheme-match" and u.explicit_port in (80, 443, 21):
+            u = u.with_scheme({80: "http", 443: "https", 21: "ftp"}[u.explicit_port])
+        elif then == "with_fragment":
+            u = u.with_fragment("x y").with_fragment(kw.get("fragment") or None)
+        if pre == 1:
+            u.path_safe, u.path, u.query_string
+        elif pre == 2:
+            from ..observe import observe
+            observe(u, reverse=True)
+        elif pre == 3:
+            u.path_safe, u.raw_path_qs, u.host_port_subcomponent, u.authority
     except (ValueError, TypeError):
         ctx.case(False, label="skipped:rejected")
         return
@@ -99,7 +113,7 @@ def kwargs():
 
 
 def generated(ctx, backend, n):
-    ctx.given("human", {"kw": kwargs()}, max_examples=n, fixed={"backend": backend})
+    ctx.given("human", {"kw": kwargs(), "pre": st.integers(0, 3), "then": st.sampled_from([None, None, "with_port-default", "with_scheme-match", "with_fragment"])}, max_examples=n, fixed={"backend": backend})
 
 
 def shards(tier, seed):
